@@ -284,6 +284,30 @@ def h_orig_bam(ex, prop, L, interval=None, pdu2=True, eps_sym=True, other_interv
     ex.witness()
 
 
+def h_orig_single(ex, prop, L, pdu2=False, dll='j1939-21'):
+    """messages that fit into one frame: the identifier (priority, data page, PDU format, PDU specific, source address) and
+    the data bytes under the reference identifier layout"""
+    w, n, ca, rx = mk_world(ex, 1)
+    dp, pf, ps, prio = pgn_inputs(ex, pdu2=pdu2)
+    if not pdu2:
+        ps = ex.fresh_int('dest', 0, 255)
+    payload = sym_payload(ex, 'b', L)
+    w.run(until=T('1/100'))
+    r = ca.send_pgn(dp, pf, ps, prio, list(payload))
+    ex.claim('accepted', r is True)
+    w.run(until=w.now + T('1/10'))
+    frames = [f for f in w.log if f['src'] == 'S']
+    ex.claim('c03.single.one_frame', len(frames) == 1, {'frames': len(frames)})
+    if len(frames) == 1:
+        f = frames[0]
+        fld = ids.id_fields(f['id'])
+        ex.claim('c03.single.id', sym_and(fld['prio'] == prio, fld['dp'] == dp, fld['edp'] == 0, fld['pf'] == pf, fld['ps'] == ps, fld['sa'] == S_ADDR, f['ext'] is True),
+                 {'id': f['id']})
+        ex.claim('c03.single.bytes', sym_and(len(f['data']) == L, sym_eq_seq(f['data'], payload)))
+    ex.claim('job_thread_alive', n.job_alive())
+    ex.witness()
+
+
 def h_orig_bam_busy(ex, prop, L=29, burst=12, tx='1/1000', interval=None, dll='j1939-21', first='cmdt', cmdt_interval=None):
     """BAM pacing while the same job thread has other work that takes time.  Every send call of a job pass takes `tx`
     (bus time of a frame; world.tx_time).  An RTS/CTS transfer to the peer is opened BEFORE the broadcast; the peer's CTS
